@@ -53,20 +53,16 @@ func hasSync(sent []*pb.SubscribeResponse) bool {
 	return false
 }
 
-// runSubscribe plays one client session. It returns the outcome class and the
-// recovered panic, if any.
-func runSubscribe(r *vlib.Run, rng *rand.Rand, reqs []*pb.SubscribeRequest, feed []*pb.Notification) (string, *panicInfo) {
+// runSubscribe plays one client session. It returns the outcome class and,
+// if something panicked, the recovered panic with the entry point and the
+// message that was being processed.
+func runSubscribe(r *vlib.Run, rng *rand.Rand, reqs []*pb.SubscribeRequest, feed []*pb.Notification) (out string, pi *panicInfo, entry string, culprit proto.Message) {
 	state := rng.Intn(3)
-	var c *cache.Cache
-	switch state {
-	case 0:
-		c = cache.New(knownTargets)
-	case 1:
-		c = cache.New(knownTargets)
+	c := cache.New(knownTargets)
+	if state >= 1 {
 		populate(c, "dev1", baseTS)
-	default:
-		c = cache.New(knownTargets)
-		populate(c, "dev1", baseTS)
+	}
+	if state >= 2 {
 		populate(c, "dev2", baseTS)
 	}
 	var opts []subscribe.Option
@@ -88,76 +84,69 @@ func runSubscribe(r *vlib.Run, rng *rand.Rand, reqs []*pb.SubscribeRequest, feed
 	for _, q := range reqs {
 		st.Push(q)
 	}
-	done := make(chan subResult, 1)
+	resCh := make(chan subResult, 1)
+	gdone := make(chan struct{})
 	go func() {
 		var err error
-		pi := guard(func() { err = srv.Subscribe(st) })
-		done <- subResult{err, pi}
+		p := guard(func() { err = srv.Subscribe(st) })
+		resCh <- subResult{err, p}
+		close(gdone)
 	}()
-	finished := func(res subResult) (string, *panicInfo) {
+	finished := func() (string, *panicInfo, string, proto.Message) {
+		res := <-resCh
 		if res.pi != nil {
-			return "panic", res.pi
+			return "panic", res.pi, "subscribe", reqs[0]
 		}
-		r.Count(fmt.Sprintf("subscribe_responses_sent_bucket_%s", bucket(st.NSent())), 1)
-		return errClass(res.err), nil
+		r.Count("subscribe_responses_sent_"+bucket(st.NSent()), 1)
+		return errClass(res.err), nil, "", nil
 	}
-	wd := time.NewTimer(watchdog)
-	defer wd.Stop()
+	isDone := func() bool {
+		select {
+		case <-gdone:
+			return true
+		default:
+			return false
+		}
+	}
+	// wctx is the watchdog; pctx additionally ends when the handler returned.
+	wctx, wcancel := context.WithTimeout(context.Background(), watchdog)
+	defer wcancel()
+	pctx, pcancel := context.WithCancel(wctx)
+	defer pcancel()
+	go func() {
+		select {
+		case <-gdone:
+			pcancel()
+		case <-pctx.Done():
+		}
+	}()
 
 	// Phase 1: until the handler returned or the initial sync went out.
-	wctx, wcancel := context.WithCancel(context.Background())
-	resCh := make(chan subResult, 1)
-	go func() {
-		select {
-		case res := <-done:
-			resCh <- res
-			wcancel()
-		case <-wctx.Done():
-		}
-	}()
-	go func() {
-		select {
-		case <-wd.C:
-			wcancel()
-		case <-wctx.Done():
-		}
-	}()
-	synced := st.WaitSent(wctx, hasSync)
-	select {
-	case res := <-resCh:
-		wcancel()
-		return finished(res)
-	default:
+	synced := st.WaitSent(pctx, hasSync)
+	if isDone() {
+		return finished()
 	}
 	if !synced {
-		wcancel()
-		select {
-		case res := <-resCh:
-			return finished(res)
-		case res := <-done:
-			return finished(res)
-		default:
-		}
 		r.Inconclusive("subscribe: neither returned nor synced within the watchdog")
-		return "inconclusive", nil
+		return "inconclusive", nil, "", nil
 	}
 	r.Count("subscribe_sessions_synced", 1)
 
 	// Phase 2: the session is live. Updates flow through the cache into the
 	// subscription (STREAM), poll triggers are consumed (POLL).
-	var fpi *panicInfo
 	for _, n := range feed {
-		if pi := guard(func() { c.GnmiUpdate(n) }); pi != nil {
-			fpi = pi
-			break
+		if p := guard(func() { c.GnmiUpdate(n) }); p != nil {
+			st.Cancel()
+			return "panic", p, "cache-ingest", n
 		}
 	}
-	if fpi == nil {
-		fpi = guard(func() {
-			c.UpdateMetadata()
-			c.Remove("dev2")
-			c.Remove("dev1")
-		})
+	if p := guard(func() {
+		c.UpdateMetadata()
+		c.Remove("dev2")
+		c.Remove("dev1")
+	}); p != nil {
+		st.Cancel()
+		return "panic", p, "cache-refresh", nil
 	}
 	st.CloseSend()
 	sl := reqs[0].GetSubscribe()
@@ -170,24 +159,19 @@ func runSubscribe(r *vlib.Run, rng *rand.Rand, reqs []*pb.SubscribeRequest, feed
 	target := sl.GetPrefix().GetTarget()
 	stream := sl.GetMode() == pb.SubscriptionList_STREAM
 	switch {
-	case fpi != nil:
-		// fall through to cancel
 	case !stream, target != "*" && registered && !(acl && target == "dev2"):
 		// The session ends by itself: ONCE after the walk, POLL at end of input,
 		// a single-target STREAM with the deletion of its target.
 		select {
-		case res := <-resCh:
-			wcancel()
-			if res.pi == nil {
-				r.Count("subscribe_sessions_ended_by_themselves", 1)
-			}
-			return finished(res)
+		case <-gdone:
+			r.Count("subscribe_sessions_ended_by_themselves", 1)
+			return finished()
 		case <-wctx.Done():
 			r.Inconclusive("subscribe: live session did not end within the watchdog")
 		}
 	case registered:
 		// STREAM on every target: wait for the last target's deletion to be relayed.
-		if st.WaitSent(wctx, func(sent []*pb.SubscribeResponse) bool {
+		if st.WaitSent(pctx, func(sent []*pb.SubscribeResponse) bool {
 			for _, x := range sent {
 				if isTargetDeleteOf(x, "dev1") {
 					return true
@@ -200,19 +184,11 @@ func runSubscribe(r *vlib.Run, rng *rand.Rand, reqs []*pb.SubscribeRequest, feed
 	}
 	st.Cancel()
 	select {
-	case res := <-resCh:
-		wcancel()
-		if fpi != nil {
-			return "panic", fpi
-		}
-		return finished(res)
+	case <-gdone:
+		return finished()
 	case <-time.After(watchdog):
-		wcancel()
 		r.Inconclusive("subscribe: handler did not return after cancellation within the watchdog")
-		if fpi != nil {
-			return "panic", fpi
-		}
-		return "inconclusive", nil
+		return "inconclusive", nil, "", nil
 	}
 }
 
@@ -247,15 +223,18 @@ func judgeSubscribe(r *vlib.Run, mode string, trial int, rng *rand.Rand, reqs []
 		feedTexts = append(feedTexts, ptext(n))
 	}
 	r.SaveCurrent(map[string]interface{}{"mode": mode, "trial": trial, "entry_point": "subscribe", "requests": texts, "cache_feed": feedTexts})
-	out, pi := runSubscribe(r, rng, reqs, feed)
+	out, pi, entry, culprit := runSubscribe(r, rng, reqs, feed)
 	r.Eval(1)
 	sl := reqs[0].GetSubscribe()
 	r.Count("subscribe_mode_"+sl.GetMode().String(), 1)
 	if pi != nil {
 		r.Count("subscribe_panics", 1)
-		class := fallbackClass(pi.Kind, reqs[0])
-		r.Violation(mode, trial, "subscribe:"+class, fmt.Sprintf("subscribe: Server.Subscribe session: %s; first request: %s", pi, truncate(texts[0], 400)),
-			map[string]interface{}{"entry_point": "subscribe", "requests": texts, "cache_feed": feedTexts, "panic": pi, "fingerprint": fingerprint(reqs[0])})
+		class := fallbackClass(pi.Kind, culprit)
+		if n, ok := culprit.(*pb.Notification); ok && entry == "cache-ingest" {
+			class = cacheClass(pi, n, nil)
+		}
+		r.Violation(mode, trial, entry+":"+class, fmt.Sprintf("%s (during a live Subscribe session): %s; first request: %s; message: %s", entry, pi, truncate(texts[0], 300), truncate(ptext(culprit), 300)),
+			map[string]interface{}{"entry_point": entry, "requests": texts, "cache_feed": feedTexts, "panic": pi, "message": ptext(culprit)})
 		return out
 	}
 	if out != "inconclusive" {
